@@ -1152,6 +1152,17 @@ func exec(c px.Context, op string, args []sx.Sexp) core.Result {
 			}
 		}
 	}
+	if tag == "f" && d.width < 0 && !d.plus && !d.space && fc.mode != "map" &&
+		(strings.IndexByte("eEfgG", d.letter) >= 0 || (strings.IndexByte("ps", d.letter) >= 0 && d.prec < 0 && !d.sharp)) {
+		// the text of a negative float is the sign and the text of its magnitude (digits are restored independently of the sign)
+		if fl := v.(px.Float).Float(); fl > 0 {
+			neg := types.WrapFloat(-fl)
+			nout := renderTop(c, &fctx{mode: "kind", top: fc.top, m: []entry{{key: "float", typ: keyType("float"), n: fc.top}}}, "f", neg)
+			if ntext, ok := isText(nout); ok && fc.top != nil && ntext != "-"+text {
+				return fail("float-sign-digits", fmt.Sprintf("%s: %v renders %q but %v renders %q", d.raw, fl, text, -fl, ntext))
+			}
+		}
+	}
 	if d.width >= 0 && utf8.RuneCountInString(text) < d.width {
 		cls := "too-narrow"
 		if tag == "u" || tag == "r" {
